@@ -84,7 +84,8 @@ def build_grid(case):
 
         lon, lat = arbitrary_coords(n_node)
     INT_DTYPE, FILL = hux.consts()
-    conn = hux.pad_table(mesh)
+    # "extra_width": the table is wider than its largest face (every row ends in padding)
+    conn = hux.pad_table(mesh, width=max(len(f) for f in mesh) + int(case.get("extra_width", 0)))
     return ux.Grid.from_topology(np.array(lon, dtype=float), np.array(lat, dtype=float), conn, fill_value=FILL)
 
 
@@ -98,8 +99,10 @@ def record_case(case):
 
     prop = case["prop"]
     rec = {"id": case["id"], "n_node": case["n_node"], "mesh": case["mesh"]}
-    if case.get("l2"):
+    if case.get("l2") and not case.get("extra_width"):
         rec["l2"] = True
+    if case.get("extra_width"):
+        rec["width"] = max(len(f) for f in case["mesh"]) + int(case["extra_width"])
     try:
         g = build_grid(case) if "file" not in case else None
         order = ORDERS[prop][case.get("order", 0) % len(ORDERS[prop])]
